@@ -1768,16 +1768,16 @@ MANIFEST = {
     "design_ref": "DESIGN.md 4/C20",
 }
 FINDINGS = [
-    {"status": "fixed", "key": "print-parse-meaning:a - b - c == 0", "commit": "b9aff5f",
+    {"status": "fixed", "key": "print-parse-meaning:a - b - c == 0", "commit": "e5b8a6c",
      "what": "Op.__str__ dropped parentheses parser2 needs: (a - b) - c printed 'a - b - c' (read back as a - (b - c)), (a * b) + c printed "
              "'a * b + c' (read back as a * (b + c)), ~(A & B) printed '~A & B', (A --> B) --> C printed 'A --> B --> C', (-a) + b printed "
              "'-a + b' (read back as -(a + b)); VCs shown to and re-parsed from the user could mean something else than the VCs computed"},
-    {"status": "fixed", "key": "parse-raise:AssertionError:while (a == b) { x := 1 }", "commit": "b2de69a",
+    {"status": "fixed", "key": "parse-raise:AssertionError:while (a == b) { x := 1 }", "commit": "f2035af",
      "what": "parser2 passed the HOL constant true as loop invariant, so every 'while (b) { c }' without invariant raised AssertionError"},
-    {"status": "fixed", "key": "vcs-raise:TypeError:const-true-under-connective", "commit": "a22e385",
+    {"status": "fixed", "key": "vcs-raise:TypeError:const-true-under-connective", "commit": "5c9f2be",
      "what": "Const(True).convert_hol returned an imperative expression (module-level `true` is rebound in expr.py); get_vcs raised TypeError for "
              "every VC with `true` below a connective, e.g. any loop with invariant true"},
-    {"status": "fixed", "key": "print-unparsable:vc-with-semicolon", "commit": "8291566",
+    {"status": "fixed", "key": "print-unparsable:vc-with-semicolon", "commit": "5bd7ab4",
      "what": "get_lines appended the ';' of a sequence to the last line, which after a loop is the VC 'I & ~b --> Q': get_vcs returned "
              "'... --> Q;', rejected by cond_parser, and print_com showed '}' without ';'"},
     {"status": "known", "key": "print-com:seq-after-cond",
